@@ -79,6 +79,28 @@ theorem C10_routed_request_goes_to_one_connection (s : St) (ai : Nat) (m m' : AM
       rw [this, hq]
       split <;> rfl
 
+/-- **An answer goes to the application that sent the request, to no other**: `_receive_app_answer` looks the
+    application up under the answer's (hop-by-hop, end-to-end) pair; without an entry nothing happens at all; with
+    one, that application — and only that one — either has the answer handed to its blocked sender or has its
+    unexpected-answer handler called with it. -/
+theorem C10_answer_only_to_the_sending_application (s : St) (m : AMsg) :
+    (s.appWaiting.find? (·.1 == (m.hbh, m.e2e)) = none ∧ receiveAppAnswer s m = s) ∨
+    ∃ k ai, s.appWaiting.find? (·.1 == (m.hbh, m.e2e)) = some (k, ai) ∧
+      (((receiveAppAnswer s m).delivered = s.delivered ++ [(ai, m)] ∧ (receiveAppAnswer s m).outs = s.outs) ∨
+       ((receiveAppAnswer s m).delivered = s.delivered ∧ (receiveAppAnswer s m).outs = s.outs ++ [Out.appAns ai m]) ∨
+       receiveAppAnswer s m = s) := by
+  unfold receiveAppAnswer
+  split
+  · rename_i h; exact Or.inl ⟨h, rfl⟩
+  · rename_i k ai h
+    refine Or.inr ⟨k, ai, h, ?_⟩
+    unfold appReceiveAnswer
+    split
+    · split
+      · exact Or.inl ⟨rfl, rfl⟩
+      · exact Or.inr (Or.inl ⟨rfl, rfl⟩)
+    · exact Or.inr (Or.inr rfl)
+
 /-- both cases occur: with a ready connection of the application's peer the request is queued on it with the next
     hop-by-hop id of that connection; with the connection not ready it is refused and nothing is queued -/
 example :
